@@ -502,9 +502,94 @@ def run(ctx, res):
                        "request times non-decreasing (single consumer)"]
     cases = corpus() + [gen_case(ctx.rng) for _ in range(ctx.n(500, 8000))]
     check_cases(cases, res)
+    run_multi_part(ctx, res, ctx.n(150, 2000))
+
+
+# ---------------------------------------------------------------------------------------------
+# several end points on one output (oracle only): requests of different end points interleave and go back in time
+def gen_multi(rng):
+    n = rng.randint(2, 3)
+    events, pubs, last, t = [], [], [None] * n, 0
+    for _ in range(rng.randint(6, 20)):
+        if not pubs or rng.random() < 0.4:
+            t += rng.choice([1, 2, 3, 5])
+            pubs.append(t)
+            events.append(["push", t])
+        else:
+            k = rng.randrange(n)
+            lo = last[k] if last[k] is not None else pubs[0]
+            cands = [x / 2 for x in range(int(2 * lo), int(2 * pubs[-1]) + 1)]
+            tt = rng.choice(cands)
+            events.append(["pull", k, tt])
+            last[k] = tt
+    return {"part": "multi", "n": n, "events": events}
+
+
+def run_multi(case):
+    import datetime as _dt
+    hour = _dt.timedelta(hours=1)
+    out = fm.Output(name="out", info=fm.Info(time=T(0), grid=fm.NoGrid(), units="m"))
+    ins = [fm.Input(name=f"in{k}", info=fm.Info(time=None, grid=fm.NoGrid(), units="m")) for k in range(case["n"])]
+    for i in ins:
+        out >> i
+    for i in ins:
+        i.ping()
+    for i in ins:
+        i.exchange_info()
+    res = []
+    for ev in case["events"]:
+        if ev[0] == "push":
+            out.push_data(np.array(float(ev[1])), T(0) + ev[1] * hour)
+            res.append(None)
+        else:
+            try:
+                v = ins[ev[1]].pull_data(T(0) + ev[2] * hour)
+                res.append({"ok": float(np.asarray(fm.data.get_magnitude(v)).reshape(-1)[0])})
+            except Exception as e:  # noqa
+                res.append({"err": err_class(e)})
+    return res
+
+
+def oracle_multi(case, impl):
+    """an independent bookkeeping of what is still retained: a publication is dropped only once every end point has pulled
+    and all of them are past the next one"""
+    pubs, last = [], [None] * case["n"]
+    for i, (ev, r) in enumerate(zip(case["events"], impl)):
+        if ev[0] == "push":
+            pubs.append(ev[1])
+            continue
+        k, t = ev[1], ev[2]
+        if not pubs or t < pubs[0] or t > pubs[-1]:
+            continue      # outside [oldest retained, newest]: not this clause
+        if "ok" not in r:
+            return ("any t between the oldest retained and the newest publication is served", {"event": i, "end_point": k, "time": t, "got": r, "retained": pubs})
+        near = [p for p in pubs if abs(p - t) == min(abs(q - t) for q in pubs)]
+        if r["ok"] not in [float(p) for p in near]:
+            return ("a pull returns the publication nearest to t (whichever end point asked before, and for which time)",
+                    {"event": i, "end_point": k, "time": t, "served_publication": r["ok"], "nearest": near, "retained": pubs})
+        last[k] = t
+        if all(x is not None for x in last):
+            m = min(last)
+            while len(pubs) > 1 and pubs[1] <= m:
+                pubs.pop(0)
+    return None
+
+
+def run_multi_part(ctx, res, n):
+    for _ in range(n):
+        c = gen_multi(ctx.rng)
+        res.case(c, True)
+        res.count("part", "several-end-points")
+        o = oracle_multi(c, run_multi(c))
+        if o:
+            res.fail(c, o[0], o[1])
+            return True
+    return False
 
 
 def search(ctx, res, divergences, broken):
+    if run_multi_part(ctx, res, 400):
+        return
     cases = [d["case"] for d in divergences if d.get("case")] + [gen_case(ctx.rng) for _ in range(ctx.n(3000, 20000))]
     for c in cases:
         impl, mev, me = run_impl(c)
@@ -519,6 +604,8 @@ def search(ctx, res, divergences, broken):
 
 def shrink(ctx, f):
     case = f["case"]
+    if case.get("part") == "multi":
+        return f
     evs = list(case["events"])
     changed = True
     while changed:
@@ -540,6 +627,9 @@ def shrink(ctx, f):
 
 def replay(ctx, rp):
     case = rp.get("input") or (rp.get("diverging_case") or {}).get("case")
+    if case.get("part") == "multi":
+        o = oracle_multi(case, run_multi(case))
+        return {"fails": bool(o), "oracle": o}
     impl, mev, me = run_impl(case)
     o = oracle(case, impl) if impl is not None else None
     return {"fails": bool(o), "oracle": o, "impl": impl}
